@@ -184,7 +184,7 @@ def stmt_split(toks, a, b):
 def locate(toks, pt):
     """returns list of candidate token lists for extraction point pt"""
     kind = pt["kind"]
-    if kind == "const":
+    if kind in ("const", "table"):
         name = pt["name_in_source"]
         out = []
         for i in range(len(toks) - 1):
@@ -247,9 +247,11 @@ def locate(toks, pt):
     want = pt.get("mentions", [])
     reject = pt.get("not_mentions", [])
     sel = []
+    def has(c, w):
+        text = " " + toks_text(c) + " "
+        return (" " + toks_text(lex(w)) + " ") in text
     for c in cands:
-        words = [t[1] for t in c]
-        if all(w in words for w in want) and not any(w in words for w in reject):
+        if all(has(c, w) for w in want) and not any(has(c, w) for w in reject):
             sel.append(c)
     return sel
 
@@ -677,6 +679,15 @@ def translate_point(pt, toks, cx):
     if len(cands) != 1:
         raise LookupError("%d candidates (need exactly 1)" % len(cands))
     etoks = cands[0]
+    if pt["kind"] == "table":
+        vals = []
+        assert etoks[0][1] == "[" and etoks[-1][1] == "]", "table literal expected"
+        for t in etoks[1:-1]:
+            if t[0] == "num":
+                vals.append(str(int(re.sub(r"[ui](8|16|32|64|128|size)$", "", t[1]).replace("_", ""), 0)))
+            elif t[1] != ",":
+                raise SyntaxError("table element " + t[1])
+        return toks_text(etoks)[:120] + " ...", "[" + "; ".join(vals) + "]", ("list", None), [], []
     params = [(p[0], p[1], p[2] if len(p) > 2 else "usize") for p in pt.get("params", [])]
     ast = Parser(etoks, params).parse()
     cx.subs = []
@@ -720,7 +731,7 @@ def main():
                 lines.append("(* MISS %s: %s *)" % (pt["name"], str(e).replace("*)", "* )")))
                 continue
             args = " ".join("(%s : %s)" % (p[1], gallina_type(p[2])) for p in params)
-            rty = "bool" if ty[0] == "bool" else "N"
+            rty = "bool" if ty[0] == "bool" else ("list N" if ty[0] == "list" else "N")
             lines.append("(* %s :: %s  [%s]" % (pt["file"], " / ".join(pt.get("scope", [])) or "top", pt["kind"]))
             lines.append("   %s *)" % src.replace("*)", "* )").replace("(*", "( *"))
             lines.append("Definition %s %s: %s := %s." % (pt["name"], args + (" " if args else ""), rty, body))
